@@ -256,9 +256,11 @@ def r12_3(ctx):
                 continue
             lv = C.trace(rle, t["args"][1], through_fields=True, transparent=lambda tt: C.is_transparent(tt) or C.callee_name(tt) in (
                 "std::slice::<impl [T]>::last", "<std::slice::Iter<'a, T> as std::iter::Iterator>::next", "std::iter::Iterator::collect",
+                "std::iter::Iterator::peekable", "std::iter::Iterator::skip", "std::iter::Iterator::by_ref",
                 "<I as std::iter::IntoIterator>::into_iter", "std::iter::IntoIterator::into_iter",
                 "std::slice::iter::<impl std::iter::IntoIterator for &'a [T]>::into_iter",
-                "<std::vec::Vec<T, A> as std::ops::Index<I>>::index", "std::slice::<impl [T]>::iter"))
+                "<std::vec::Vec<T, A> as std::ops::Index<I>>::index", "std::slice::<impl [T]>::iter") or
+                C.callee_name(tt).endswith("Iterator>::next") or C.callee_name(tt).endswith("Iterator::next"))
             ok = bool(lv) and all(leaf_is_call(l, LINES) or (l.kind == "param" and rle.local_name(l.data) == "line_ending") for l in lv)
             if ok:
                 ctx.ok("replace_line_ending pushes a lines() item or line_ending", site=ctx.site(rle, bb))
@@ -633,7 +635,7 @@ def r12_5(ctx):
     pv = prov(ctx)
     for (b, bb, t) in C.all_call_sites(lib, lambda ns, t: ROLE["write_temp_file"] in ns):
         leaves = pv.leaves(b, t["args"][2])
-        bad = [l.describe() for l in leaves if not ((l.kind == "call" and l.callee() == ROLE["format_directive_output"]) or
+        bad = [l.describe() for l in leaves if not ((l.kind == "call" and l.callee() in (ROLE["format_directive_output"], "std::string::String::new")) or
                                                     (l.kind == "const" and (C.op_const(l.data) or "") == '""'))]
         if bad:
             ctx.violation([b.name, "temp-content", ";".join(sorted(set(bad)))[:120]], "temp file content derives from %s (only the formatter's output or the empty "
